@@ -22,8 +22,17 @@ func init() {
 		Level: "fault_enumeration",
 		Rule: "for every driver (file-based API entry point with valid arguments) x path configuration (in-place, out==in, new output, existing output 0600; empty / colliding output directory): one fault-free run gives the N intercepted filesystem events; then exactly one fault at each event i in 1..N: errno on every event, short write + ENOSPC on every write, panic on every data-plane event (read/seek/write); thorough: two faults (second after the first) for the staging drivers; " +
 			"non-trivial = a faulted execution whose fault fired after the first output/staging file had been created",
-		Assume: []string{"filesystem calls reach the kernel only through package os (validated by the strace cross-check in thorough tier of C02)", "a panic injected at a data-plane call stands for a panic of the processing code around it"},
-		Run:      func(r *core.R) { core.Sharded(r, core.Workers()) },
+		Assume: []string{"filesystem calls reach the kernel only through package os: cross-checked in the thorough tier by running every driver under strace and matching every mutating system call on scratch paths with an intercepted event", "a panic injected at a data-plane call stands for a panic of the processing code around it"},
+		Run: func(r *core.R) {
+			if os.Getenv("C01_ONLY_STRACE") != "" { // development aid: only the shim conformance step
+				c01StraceConformance(r)
+				return
+			}
+			core.Sharded(r, core.Workers())
+			if !r.Quick() {
+				c01StraceConformance(r)
+			}
+		},
 		RunShard: c01shard,
 		Replay:   c01replay,
 		QuickSecs: 200,
